@@ -13,7 +13,7 @@ def gen_cop(rng):
             b, a, t = rng.choice(vals), rng.choice(vals), rng.choice(vals)
             m[i][j] = [b, a, t]
             m[j][i] = [a, b, t]
-    return dict(pairwise_cost_matrix=m)
+    return dict(pairwise_cost_matrix=m, n_=n)
 
 
 def register(reg):
